@@ -274,6 +274,46 @@ func c02Named() []c02Case {
 	return out
 }
 
+// c02Splitters: every record splitter (newline, single byte incl. non-UTF-8, paragraph mode,
+// multi-byte rune, regexes) and the CSV/TSV splitter on EVERY string of length <= 5 over a
+// separator-heavy alphabet, delivered whole and byte by byte (index faults in a splitter show
+// only for particular tails such as "\n\r" at a read boundary).
+func c02Splitters(visit func(i int, cs c02Case)) {
+	rss := []string{"", "\n", "x", "\xff", "ab", "a+", "é", "\r\n", "\n\n+", "(ab)+|\r"}
+	alpha := []string{"a", "\n", "\r", "x", "b"}
+	csvAlpha := []string{"a", ",", "\"", "\n", "\r"}
+	prog := "{ n++; m += length($0) + length(RT) + NF }\nEND { print n, m, length($0) }\n"
+	i := 0
+	var rec func(prefix string, depth int, alphabet []string, emit func(in string))
+	rec = func(prefix string, depth int, alphabet []string, emit func(in string)) {
+		emit(prefix)
+		if depth == 0 {
+			return
+		}
+		for _, a := range alphabet {
+			rec(prefix+a, depth-1, alphabet, emit)
+		}
+	}
+	for _, rs := range rss {
+		rs := rs
+		rec("", 5, alpha, func(in string) {
+			for _, chunk := range []int{0, 1, 2} {
+				visit(i, c02Case{Gen: "splitter", Src: prog, Stdin: []byte(in), Vars: []string{"RS", rs}, Chunk: chunk})
+				i++
+			}
+		})
+	}
+	for _, mode := range []int{1, 2} {
+		mode := mode
+		rec("", 5, csvAlpha, func(in string) {
+			for _, chunk := range []int{0, 1} {
+				visit(i, c02Case{Gen: "splitter", Src: "{ n++; m += length($0) + NF; x = x $1 $NF }\nEND { print n, m, x }\n", Stdin: []byte("\xef\xbb\xbf"[:3*(i%2)] + in), InMode: mode, Sep: ",", Header: i%3 == 0, Chunk: chunk})
+				i++
+			}
+		})
+	}
+}
+
 func c02Mutated(rng *rand.Rand, progs []string) c02Case {
 	src, g := genMutateCorpus(rng, progs)
 	cs := c02Case{Gen: "mutated", Src: string(src)}
@@ -343,7 +383,7 @@ func init() {
 		NBatches: func(t core.Tier) int { return n(t, 16, 64) },
 		Race:     func(t core.Tier) bool { return t == core.Thorough },
 		Floors: func(t core.Tier) map[string]int {
-			return map[string]int{"evaluations": n(t, 40000, 1500000), "distinct_nontrivial": n(t, 12000, 400000), "gen_hostile": n(t, 8000, 300000), "gen_named-error": 40, "gen_deep-recursion": 70, "error_messages": 30}
+			return map[string]int{"evaluations": n(t, 300000, 1800000), "distinct_nontrivial": n(t, 100000, 500000), "gen_hostile": n(t, 8000, 300000), "gen_named-error": 40, "gen_deep-recursion": 70, "gen_splitter": 100000, "error_messages": 30}
 		},
 		Run: func(c *core.Ctx) {
 			rng := c.Rand("cases")
@@ -352,6 +392,11 @@ func init() {
 					c02Check(c, cs)
 				}
 			}
+			c02Splitters(func(i int, cs c02Case) {
+				if c.Mine(i) {
+					c02Check(c, cs)
+				}
+			})
 			progs := corpus.All()
 			total := n(c.Tier, 22000, 900000) / c.NBatches
 			for i := 0; i < total; i++ {
